@@ -1152,10 +1152,12 @@ class TransactionBuilder:
     def _build_full_fake_tx(self) -> Transaction:
         tx_body = self._build_tx_body()
 
-        if tx_body.fee == 0:
-            # When fee is not specified, we will use max possible fee to fill in the fee field.
-            # This will make sure the size of fee field itself is taken into account during fee estimation.
-            tx_body.fee = max_tx_fee(self.context)
+        # Always size the fee field with the largest fee the transaction can need. Sizing it with the
+        # estimate of a previous pass under-estimates when the final fee needs a wider CBOR integer.
+        tx_body.fee = max(
+            tx_body.fee,
+            max_tx_fee(self.context, self._ref_script_size()) + (self.fee_buffer or 0),
+        )
 
         witness = self._build_fake_witness_set()
         tx = Transaction(tx_body, witness, True, self.auxiliary_data)
